@@ -65,6 +65,15 @@ func buildGroup(g *gnode) *quickfix.RepeatingGroup {
 	rg := quickfix.NewRepeatingGroup(quickfix.Tag(g.Tag), tmplOf(g.Tmpl))
 	for _, e := range g.Entries {
 		ge := rg.Add()
+		if len(e) >= 2 && (len(e)+len(g.Entries))%3 == 0 {
+			// the members of an entry may be set in any order (here: backwards, the delimiter last): the entry is
+			// written in template order all the same
+			rev := make([]gfield, len(e))
+			for i := range e {
+				rev[len(e)-1-i] = e[i]
+			}
+			e = rev
+		}
 		for _, f := range e {
 			if f.Grp != nil {
 				if len(f.Grp.Entries) >= 2 && len(f.Grp.Entries)%2 == 0 {
@@ -232,6 +241,9 @@ func val(r *rand.Rand) string {
 func populate(r *rand.Rand, tag int, tmpl []titem, maxEntries int, pPresent float64) *gnode {
 	g := &gnode{Tag: tag, Tmpl: tmpl}
 	n := r.Intn(maxEntries + 1)
+	if r.Intn(12) == 0 {
+		n = 8 + r.Intn(6) // counters around the step from one digit to two (and 0 above)
+	}
 	for e := 0; e < n; e++ {
 		var ent []gfield
 		for i, it := range tmpl {
